@@ -409,7 +409,7 @@ func errorBound(c *core.Ctx, docs []*calcproto.Doc, res []Result) {
 				if provedBy != "" {
 					thm = provedBy
 				}
-				c.TieBroken(thm, fmt.Sprintf("totals.%s = %s is further from the unrounded exact value %s than the bound proved for the document class (weight %d)", names[j], a.String(), want.FloatString(int(sub)+6), weight), Case{d})
+				c.TieBroken(thm, fmt.Sprintf("totals.%s = %s is further from the unrounded exact value %s than the bound proved for the document class (weight %d, tight weight %s)", names[j], a.String(), want.FloatString(int(sub)+6), weight, cf[3]), Case{d})
 			}
 			if diff.Cmp(unit) >= 0 && !large[k] {
 				cls := ""
